@@ -369,6 +369,42 @@ async fn first_outcome_cases(rep: &mut Report) {
     }
 }
 
+/// the peer answers a SYN the moment it has parsed its header, while the client's (padded) write of
+/// that packet is still crawling through a tiny transport: the verdict must still arrive
+async fn early_answer_cases(rep: &mut Report) {
+    use crate::mempipe::Frag;
+    for (ci, (cap, answer_err)) in [(4usize, false), (4, true), (1, false), (16, true), (64, false)].into_iter().enumerate() {
+        let c2s = PipeCfg { capacity: cap, write_frag: Frag::All, read_frag: Frag::All, pending_prob: 0.0, seed: ci as u64 };
+        let cv = engine::client_vs_raw(c2s, PipeCfg::plain(), engine::default_padding(), None).await;
+        let mut peer = cv.peer;
+        let responder = tokio::spawn(async move {
+            while let Some(f) = peer.recv().await {
+                if f.cmd == refcodec::SYN {
+                    let _ = peer.send(refcodec::SYNACK, f.sid, if answer_err { b"refused early".as_slice() } else { b"".as_slice() }).await;
+                }
+            }
+        });
+        for k in 0..4 {
+            let r = tokio::time::timeout(Duration::from_secs(120), engine::open_like_client(&cv.client, Bytes::from_static(b"destination"))).await;
+            rep.case(Some(hash_str(&format!("early-answer:{ci}:{k}"))));
+            rep.add("early_answer_opens", 1);
+            let case = json!({"kind": "c10-early-answer", "transport_capacity": cap, "answer": if answer_err { "error" } else { "ok" }, "open_number": k});
+            match r {
+                Ok(Ok((_st, rx))) => match tokio::time::timeout(Duration::from_secs(60), rx).await {
+                    Ok(Ok(Ok(()))) if !answer_err => {}
+                    Ok(Ok(Err(_))) if answer_err => {}
+                    Ok(other) => rep.violate("open_verdict", "answer_before_open_returned", "wrong_verdict", format!("open #{k}: the peer answered {} as soon as it saw the SYN; the open resolved with {:?}", if answer_err { "an error" } else { "success" }, other.map(|x| x.map_err(|e| e.to_string()))), case),
+                    Err(_) => rep.violate("open_verdict", "answer_before_open_returned", "open_never_completed", format!("open #{k} over a {cap}-byte transport: the peer answered the SYN immediately (while the rest of the packet was still being written), but the pending open was not resolved within 60 virtual seconds"), case),
+                },
+                Ok(Err(e)) => rep.inconclusive(format!("open failed: {e}")),
+                Err(_) => rep.violate("open_verdict", "answer_before_open_returned", "open_blocked", format!("open #{k} did not return within 120 virtual seconds"), case),
+            }
+        }
+        responder.abort();
+        let _ = tokio::time::timeout(Duration::from_secs(5), cv.client.close()).await;
+    }
+}
+
 pub fn run(ctx: Ctx) -> Report {
     let quick = ctx.tier == crate::report::Tier::Quick;
     let mut rep = Report::new("C10");
@@ -376,6 +412,7 @@ pub fn run(ctx: Ctx) -> Report {
     let mut r1 = Report::new("C10");
     run::vt_block_on(async {
         first_outcome_cases(&mut r1).await;
+        early_answer_cases(&mut r1).await;
     });
     rep.merge(r1);
 
@@ -560,9 +597,9 @@ pub fn run(ctx: Ctx) -> Report {
 pub fn meta() -> CheckMeta {
     CheckMeta {
         level: "exploration",
-        rule: "(a) real Client/Server/SOCKS5/HTTP over loopback: accepting (banner + echo), refusing (closed port) and unresolvable (fake-DNS NXDOMAIN) targets through create_proxy_stream, SOCKS5 (also with an application that sends greeting+request+data in one segment), HTTP CONNECT and HTTP GET, 32 in flight on shared sessions; outcome compared with the scripted truth, accept log and bytes seen at the targets; a failure that only ends after > 20 s means the server's reason was never reported. (b) the real Client against a scripted TLS peer: SYNACK ok/error at 0-1.5 s (thorough: 10 s, 25 s, 20 s, never, 33 s), ok-then-error, error-then-ok, answers for unknown ids then ok, ok before the destination frame, connection close and Alert during the wait; verdict, completion time window and error text checked. (c) session level, virtual time: first-outcome-wins over SYNACK sequences with stray answers for unknown ids, and session death. distinct_nontrivial = distinct cases.".into(),
+        rule: "(a) real Client/Server/SOCKS5/HTTP over loopback: accepting (banner + echo), refusing (closed port) and unresolvable (fake-DNS NXDOMAIN) targets through create_proxy_stream, SOCKS5 (also with an application that sends greeting+request+data in one segment), HTTP CONNECT and HTTP GET, 32 in flight on shared sessions; outcome compared with the scripted truth, accept log and bytes seen at the targets; a failure that only ends after > 20 s means the server's reason was never reported. (b) the real Client against a scripted TLS peer: SYNACK ok/error at 0-1.5 s (thorough: 10 s, 25 s, 20 s, never, 33 s), ok-then-error, error-then-ok, answers for unknown ids then ok, ok before the destination frame, connection close and Alert during the wait; verdict, completion time window and error text checked. (c) session level, virtual time: first-outcome-wins over SYNACK sequences with stray answers for unknown ids, and session death; plus a peer that answers each SYN the moment it has parsed it while the client's padded write is still crawling through a 1-64 byte transport. distinct_nontrivial = distinct cases.".into(),
         assumptions: vec!["real-time windows are generous (+4-5 s) and only decide between well-separated instants".into(), "exactly-once completion of create_proxy_stream itself is structural (an async fn returns once); for SOCKS5/HTTP a second reply after a failure reply is looked for".into()],
-        floors: vec![("scripted_peer_cases", 10), ("real_stack_opens", 30), ("successful_opens_confirmed_by_accept", 8), ("failed_opens_reported_as_failure", 10), ("first_outcome_sequences", 6)],
+        floors: vec![("scripted_peer_cases", 10), ("real_stack_opens", 30), ("successful_opens_confirmed_by_accept", 8), ("failed_opens_reported_as_failure", 10), ("first_outcome_sequences", 6), ("early_answer_opens", 15)],
         exhaustive: false,
     }
 }
